@@ -454,7 +454,16 @@ func (waiter *ChangeWaiter) Wait(ctx context.Context) uint32 {
 	if waiter.userKeys != nil {
 		waiter.lastUserCount = waiter.listener.CurrentCount(waiter.userKeys)
 	}
-	countChanged := waiter.lastCounter > lastCounter
+
+	// A stopped listener reports zero counts, which carry no information about the waiter's keys
+	select {
+	case <-waiter.listener.terminator:
+		return WaiterClosed
+	default:
+	}
+
+	// Uses != to compare: the highest count over the waiter's keys can go down when UpdateChannels has removed keys
+	countChanged := waiter.lastCounter != lastCounter
 
 	// Uses != to compare as value can cycle back through 0
 	terminateCheckCountChanged := waiter.lastTerminateCheckCounter != lastTerminateCheckCounter
